@@ -538,7 +538,7 @@ def mapped_branch_renames(ctx):
 
 
 def run(ctx):
-    n = 300 if ctx.tier == "quick" else 9000
+    n = 500 if ctx.tier == "quick" else 9000
     core.WARM_P = 0.0
     if ctx.replay:
         ctx.inconc("C10 replays are re-generated from the seed; re-run the tier with the recorded seed")
